@@ -84,7 +84,7 @@ def check(ctx, prog, stats, samples):
 
         def collect(e):
             if e[0] == 9 and e[1] >= 10:
-                bounds[e[1]] = e[2]
+                bounds.setdefault(e[1], []).append(e[2])      # one condition may be given several bounds in one function
             if e[0] in (2, 3):
                 for x in e[1:]:
                     collect(x)
@@ -95,7 +95,7 @@ def check(ctx, prog, stats, samples):
             stats["predicate_evaluations"] += 1
             if fid in bounds and ve != ["?"]:
                 v = dec_val(ve, w)
-                if py_isinstance(v, b.ty(bounds[fid])) is not True:
+                if not any(py_isinstance(v, b.ty(bd)) is True for bd in bounds[fid]):
                     ctx.violation(f"user condition {fid} was evaluated on {v!r}, which is not an instance of its bound", case)
         if r["impl"] == ["exc"]:
             if r["impl_raw"] == ["exc", "CycleError"] and c06_hookvshook(prog):
